@@ -22,7 +22,7 @@ RULE = ("accepted texts of the C01 campaign with >= 1 section; 1..4 override spe
         "distinct by hash of (schema XML, text, overrides).")
 ASSUMPTIONS = [
     "the hand edit is performed by zcv (lines of the addressed key dropped in the first matching child section in file order, override values appended with '$' doubled); key normalisation for 'the same key' uses the key type the schema AST gives the addressed section",
-    "path components that are not basic-keys (U15) and values with leading/trailing blanks are not generated",
+    "path components that are not basic-keys (U15) are not generated; values with leading/trailing blanks cannot be written in a text line, so 'verbatim' is checked for them on keys with an identity datatype by a separate probe (padding changes exactly that value)",
     "only the fact of rejection is compared, except: unconvertible value => DataConversionError, malformed specifier => ConfigurationSyntaxError from addOption",
 ]
 MAIN = "file:///zcv/main.conf"
@@ -189,6 +189,42 @@ def compare(ast, sm, schema, text, overrides):
     return with_ov[0], out
 
 
+def _map_leaves(d, fn):
+    if isinstance(d, dict):
+        return {k: _map_leaves(v, fn) for k, v in d.items()}
+    if isinstance(d, list):
+        return [_map_leaves(v, fn) for v in d]
+    if isinstance(d, str):
+        return fn(d)
+    return d
+
+
+PADDINGS = [("  ", ""), ("", " \t"), (" ", "  "), ("\t", ""), ("\u2003", "\u00a0")]
+
+
+def check_verbatim(schema, text, overrides, idx, pad):
+    """'the override values are supplied ... verbatim': for a key whose datatype is the identity,
+    padding the value of one specifier with blanks changes exactly that value in the result."""
+    marker = "zcv verbatim"     # the interior blank keeps list-valued datatypes from yielding it as a leaf
+    padded = pad[0] + marker + pad[1]
+    a = [list(o) for o in overrides]
+    b = [list(o) for o in overrides]
+    a[idx][1] = marker
+    b[idx][1] = padded
+    ra = outcome(loadcheck.real_load(schema, text, url=MAIN, overrides=[spec(p, v) for p, v in a]))
+    rb = outcome(loadcheck.real_load(schema, text, url=MAIN, overrides=[spec(p, v) for p, v in b]))
+    if "internal" in (ra[0], rb[0]):
+        return []
+    if ra[0] != rb[0]:
+        return [("override-value-not-verbatim:verdict", "%s with %r, %s with %r" % (ra[0], spec(*a[idx]), rb[0], spec(*b[idx])))]
+    if ra[0] == "ok":
+        want = _map_leaves(ra[1], lambda x: padded if x == marker else x)
+        d = digest.first_diff(want, rb[1])
+        if d:
+            return [("override-value-not-verbatim:tree", "%s ; specifier %r" % (d, spec(*b[idx])))]
+    return []
+
+
 def check_malformed(schema, specs):
     ZConfig = loadcheck.zc()
     from ZConfig import cmdline
@@ -214,6 +250,12 @@ def evaluate(case):
         return []
     if case.get("malformed"):
         return [failure(sig, case, d) for sig, d in check_malformed(schema, case["malformed"])]
+    if case.get("verbatim"):
+        idx, pad = case["verbatim"]
+        try:
+            return [failure(sig, case, d) for sig, d in check_verbatim(schema, case["text"], case["overrides"], idx, pad)]
+        except Exception:
+            return []
     for p, v in case["overrides"]:
         if not p or "" in p or any(refdt.basic_key(c)[0] != "ok" for c in p[:-1]) or v != v.strip() or "\n" in v \
                 or "/" in p[-1] or "=" in "".join(p) or p[-1] != p[-1].strip() or not p[-1].split() or len(p[-1].split()) > 1 \
@@ -240,6 +282,7 @@ def gen_overrides(rng, sm, text):
     evs = parse_units(lines)
     res = []
     nontrivial = False
+    gen_overrides.identity = []       # indices of overrides that address a key with an identity datatype
     for _ in range(rng.randint(1, 4)):
         path = []
         lo, hi = 0, len(lines)
@@ -282,6 +325,8 @@ def gen_overrides(rng, sm, text):
                     key = it.name
                 key = gen.mixcase(rng, key) if ctype.kt != "identifier" else key
                 dt = it.dt
+                if dt in ("string", "null"):
+                    gen_overrides.identity.append(len(res))
                 if rng.random() < 0.75:
                     val = rng.choice(gen.GOOD.get(dt, gen.GOOD["string"]))
                 else:
@@ -339,6 +384,14 @@ def run_shard(spec_):
                                     "overrides": [spec(p, v) for p, v in overrides]})
                 for sig, d in fl:
                     res.fail(sig, {"schema": ast, "text": text, "overrides": overrides}, d)
+                if gen_overrides.identity and kind == "ok":
+                    idx = rng.choice(gen_overrides.identity)
+                    pad = rng.choice(PADDINGS)
+                    res.evaluations += 1
+                    counters["verbatim-probes"] += 1
+                    for sig, d in check_verbatim(schema, text, overrides, idx, pad):
+                        res.fail(sig, {"schema": ast, "text": text, "overrides": overrides,
+                                       "verbatim": [idx, list(pad)]}, d)
     res.counters.update(counters)
     return res
 
